@@ -4,12 +4,18 @@ from ..values import *
 from ..values import _ci
 from .. import reduce as R
 
+def _bcast2(f, a, b):
+    from ..interp import bshape, elem
+    sa = a.shape if isinstance(a, SArr) else (); sb = b.shape if isinstance(b, SArr) else ()
+    return SArr(bshape(sa, sb), lambda idx: f(elem(a, idx), elem(b, idx)))
 def Min(a, b):
+    if isinstance(a, SArr) or isinstance(b, SArr): return _bcast2(Min, a, b)       # elementwise with broadcasting (jnp.minimum)
     ca, cb = concrete_int(a), concrete_int(b)
     if ca is not None and cb is not None: return min(ca, cb)
     if not is_z3(a) and not is_z3(b): return min(a, b)
     a, b = coerce_pair(a, b); return z3.If(a <= b, a, b)
 def Max(a, b):
+    if isinstance(a, SArr) or isinstance(b, SArr): return _bcast2(Max, a, b)
     ca, cb = concrete_int(a), concrete_int(b)
     if ca is not None and cb is not None: return max(ca, cb)
     if not is_z3(a) and not is_z3(b): return max(a, b)
@@ -387,6 +393,14 @@ def hstack(parts):
     if parts and all(isinstance(p, SArr) and p.ndim == 2 for p in parts): return concat_axis1(parts)      # numpy: hstack joins 2-D arrays column-wise
     return concat(parts, 0)
 def vstack(parts):
+    parts = [from_value(p) for p in parts]
+    if parts and all(isinstance(p, SArr) and p.ndim == 1 for p in parts):
+        # numpy: 1-D arrays are stacked as ROWS (found by the library-model conformance check; the old model concatenated them)
+        n = parts[0].shape[0]
+        def get(idx):
+            k = concrete_int(idx[0])
+            return parts[k].get((idx[1],)) if k is not None else select_list([q.get((idx[1],)) for q in parts], idx[0])
+        return SArr((len(parts), n), get)
     return concat(parts, 0)
 
 # ---------------------------------------------------------------- reductions
